@@ -188,7 +188,7 @@ def model_vs_impl(cases, py_out):
     m = re.search(r'=\s*\[(.*?)\]\s*:\s*list nat', out, re.S)
     if not m:
         return None, idx, out[-500:]
-    bad = [int(x) for x in m.group(1).replace('\n', ' ').split(';') if x.strip()]
+    bad = [int(x) for x in m.group(1).replace('%nat', '').replace('\n', ' ').split(';') if x.strip()]
     return [idx[b] for b in bad], idx, ''
 
 
